@@ -21,7 +21,7 @@ CLAIMED = {
     ),
     "C03": (
         "Per country and position, the real pipeline runs on a symbolic valid IBAN and on its single-substitution / adjacent-transposition mutant (same kind, different value); the path on which both are accepted is shown infeasible by the solver.",
-        "quick: one country per signature, boundary + seeded interior positions; thorough: every country x every position >= 2 x both error kinds.",
+        "quick: one country per distinct per-position class string, boundary + seeded interior positions; thorough: every country; every position for structures without digit-or-letter tokens, boundaries + 3 interior positions per token otherwise.",
         "3 C03",
     ),
     "C10": (
